@@ -42,6 +42,16 @@ static bool build(const Elem &e, ref::bytes &out)
         ptrs.push_back(bufs.back()->p);
     }
     ref::bytes rb = e.encode();
+    // destination not 4-byte aligned (as the messages of upstream's test/message-alignment.c)
+    {
+        size_t shift = 1 + (hash_bytes(rb.data(), rb.size()) % 3);
+        Heap hu(rb.size() + shift);
+        memset(hu.p, 0xA5, hu.n);
+        size_t ru = gen::call_bundle(hu.p + shift, rb.size(), e.tt, ptrs);
+        count("bundle.built_unaligned");
+        if(ru != rb.size()) { fail("bundle_return", {"unaligned_destination"}, g_desc, std::to_string(ru), std::to_string(rb.size())); return false; }
+        if(memcmp(hu.p + shift, rb.data(), rb.size())) { fail("bundle_bytes", {"unaligned_destination"}, g_desc, hexs(hu.p + shift, rb.size() > 160 ? 160 : rb.size()), hexs(rb.data(), rb.size() > 160 ? 160 : rb.size())); return false; }
+    }
     Heap h(rb.size());
     memset(h.p, 0xA5, h.n);
     size_t r = gen::call_bundle(h.p, h.n, e.tt, ptrs);
@@ -69,6 +79,17 @@ static void inspect(const Elem &e, const char *buf, size_t len, int depth)
     if(tt != e.tt) fail("timetag", {}, g_desc, fmt("%016llx", (unsigned long long)tt), fmt("%016llx", (unsigned long long)e.tt));
     size_t ml = rtosc_message_length(buf, len);
     if(ml != len) fail("bundle_message_length", {depth ? "nested" : "top"}, g_desc, std::to_string(ml), std::to_string(len));
+    // measured as a two-segment ring (a bundle that wraps around in a ThreadLink): splits inside the header and a few beyond
+    if(depth == 0) {
+        for(size_t k = 0; k <= len; k += (k < 24 ? 1 : len / 12 + 1)) {
+            Heap a(k), b(len - k);
+            memcpy(a.p, buf, k); memcpy(b.p, buf + k, len - k);
+            ring_t ring[2] = {{a.p, k}, {b.p, len - k}};
+            size_t rl = rtosc_message_ring_length(ring);
+            count("inspect.ring_splits");
+            if(rl != len) { fail("bundle_ring_length", {}, g_desc + fmt(" [as two segments of %zu + %zu bytes]", k, len - k), std::to_string(rl), std::to_string(len)); break; }
+        }
+    }
     size_t n = rtosc_bundle_elements(buf, len);
     if(n != e.kids.size()) { fail("bundle_elements", {}, g_desc, std::to_string(n), std::to_string(e.kids.size())); return; }
     size_t off = 16;
